@@ -1,26 +1,29 @@
 """C11 - ignore / tolerance options only remove differences and never make DeepDiff fail.
 
-proof:           coq/theories/Options/{OptModel,OptProofs*}.v, Properties/C11.v
-correspondence:  (a) DeepDiff(t1, t2, view='tree', **F) - canonicalised tree (kind, both
-                 key sequences, both leaf values, unified diff text) or the exception
-                 class - against Options.OptModel.run_optF evaluated in Coq, for
-                 t2 = normalise_F(t1) (the generated normaliser of the option applied
-                 at random positions: leaves, DICTIONARY KEYS, set members), the same
-                 plus a genuine edit (near misses), plain-equal pairs (aliasing
-                 1 / 1.0 / True, re-ordered dicts) and unrelated pairs; all single
-                 modelled options and all pairs of them; positional and default list
-                 modes; threshold_to_diff_deeper 0.33 and 0.
-                 (b) helper.number_to_string on dyadic rationals m/2^e against num_str,
-                 math.isclose(abs_tol=) against is_close, the text DeepHash feeds to the
-                 hasher for an atom under the options against hatomF.
-direct oracle:   the three clauses stated on the public API, independent of the model,
-                 for ALL ELEVEN options (ignore_nan_inequality, use_enum_value,
-                 truncate_datetime, default_timezone are exercised here only: no theorem
-                 covers them) and pairs of options, on a richer universe (arbitrary
-                 floats, nan, enum members, naive / aware datetimes):
+proof:           coq/theories/Options/{OptModel,OptProofs*}.v (old model, tied to Diff.DiffModel by theorem),
+                 Options/{YValue,YModel,YProofs*,YEmbed*}.v (round-3 extended model), Properties/C11.v
+correspondence:  (a) DeepDiff(t1, t2, view='tree', **F) - canonicalised tree (kind, both key sequences incl. the attribute
+                 steps .name / .value of Enum members, both leaf values, unified diff text) or the exception class
+                 (TypeError / ValueError / AttributeError) - against OptModel.run_optF (old universe) and against
+                 YModel.run_optF (extended universe: arbitrary doubles, nan OBJECTS with identity, Decimal, datetime,
+                 date, time, timedelta, Enum members at leaves / dict keys / set members; all twelve options
+                 incl. ignore_nan_inequality, use_enum_value, number_format_notation='e'), for t2 = normalise_F(t1),
+                 near misses, plain-equal pairs, unrelated pairs, ONE container object shared at two positions (13 %),
+                 every single option and every pair, a focused family of option COMBINATIONS (nan leaves that are distinct
+                 objects x {math_epsilon incl. 0, significant_digits, ignore_numeric_type_changes}; bytes / Enum dict keys
+                 with upper-case letters x ignore_string_case x {ignore_string_type_changes, use_enum_value}; an Enum member
+                 facing an equal value of another type x a type-ignoring option) and the witnesses of the Coq _refuted theorems;
+                 positional and default list modes; threshold_to_diff_deeper 0.33 and 0.
+                 (b) atom level: number_to_string (notations f and e) on int / float / Decimal / bool / nan against nstr,
+                 math.isclose against is_close, float(Decimal) against dy_of_dec, time_to_seconds against time_secs,
+                 Python's lookup equality across number types against py_eq, the DeepHash text (old atoms) and the
+                 EQUALITY of DeepHash texts (new kinds of atoms, whose texts are stand-ins) against hatomF, datetime_normalize.
+direct oracle:   the clauses stated on the public API, independent of the model, for ALL options and pairs, on a richer
+                 universe still (numpy scalars, magnitudes 1e-9 ... 2^70):
                    A  DeepDiff(x, normalise_F(x), **F) == {}
                    B  DeepDiff(a, b) == {}  ==>  DeepDiff(a, b, **F) == {}
                    C  DeepDiff(a, b) does not raise  ==>  DeepDiff(a, b, **F) does not raise
+                   D  (composition) for every single option S of the set F:  DeepDiff(a, b, **S) == {}  ==>  DeepDiff(a, b, **F) == {}
 """
 import copy
 import datetime
@@ -47,23 +50,30 @@ THEOREM_FILE = "Properties/C11.v"
 COQCHK = ["Properties.C11"]
 RULE = ("one case = one pair (t1, t2) under one option set and one list mode; families: alt (t2 = the option's normaliser applied to "
         "t1 at random leaves / dict keys / set members), near (alt + one genuine edit), alias (plain-equal pairs: 1 / 1.0 / True swapped in "
-        "default-mode lists, dict keys and sets, dict insertion order shuffled), rand (independent values or an edit script); option sets: "
+        "default-mode lists, dict keys and sets, dict insertion order shuffled), rand (independent values or an edit script), focus (option "
+        "combinations on nan leaves / bytes and Enum keys / Enum members facing equal values of another type), hand (witnesses); option sets: "
         "every single option and every pair; a case is non-trivial when t1 and t2 are not structurally identical; "
         "distinct = distinct (family, options, mode, canonical t1, canonical t2)")
 TRUSTED = [
-    "only the options ignore_string_case, ignore_string_type_changes, ignore_numeric_type_changes, significant_digits (notation 'f'), "
-    "math_epsilon, exclude_types and ignore_private_variables are inside the structural Coq model; truncate_datetime and default_timezone "
-    "(fixed-offset zones) have an ATOM-LEVEL model (datetime_normalize + the comparison of _diff_datetime) with atom-level theorems only; "
-    "ignore_nan_inequality, use_enum_value, number_format_notation='e', named time zones are exercised by the direct oracle only (no theorem)",
-    "floats of the structural model are half-integers; number_to_string / math.isclose are modelled on dyadic rationals m/2^e in exact "
-    "arithmetic (the double rounding of rel_tol*x inside math.isclose and of round() followed by '%.df' are not modelled: they coincide "
-    "with exact arithmetic on the generated domain |x| < 2^20, <= 12 fractional bits, <= 6 digits)",
-    "sha256 is taken to be injective on the texts DeepHash builds for set members (the model compares the texts)",
+    "the Gallina models are hand-written; they are tied to the code by the correspondence check only. Old model: options ignore_string_case, "
+    "ignore_string_type_changes, ignore_numeric_type_changes, significant_digits ('f'), math_epsilon, exclude_types, ignore_private_variables on the "
+    "shared universe (half-integer floats). Extended model (YValue / YModel): additionally truncate_datetime, default_timezone (fixed offsets), "
+    "ignore_nan_inequality, use_enum_value, number_format_notation='e' on doubles, nan objects, Decimal, datetime, date, naive time, timedelta, "
+    "members of plain Enum classes",
+    "number_to_string / math.isclose are exact arithmetic: round() followed by '%.df' is taken as round-half-even of the exact binary value, "
+    "float(Decimal) and the operand of '%.de' as the nearest double (53 bits, no subnormals / overflow), rel_tol * x exactly (the double rounds it); "
+    "checked against the implementation on |x| < 1e6, <= 6 digits (atom-level stream)",
+    "sha256 is taken to be injective on the texts DeepHash builds for set members (the model compares the texts); the texts of Decimal (no precision), "
+    "date, time, timedelta, datetime and Enum members are STAND-INS that are faithful only for equality between texts (checked pairwise)",
     "bytes are ASCII in the model (decode is the identity); str.lower() is modelled for ASCII",
-    "the identity shortcut `level.t1 is level.t2` is not modelled (for tree-shaped inputs it can only hit immutable atoms, "
-    "for which every comparer reports nothing)",
-    "the DeepHash memo table keyed by == (1 / 1.0 share one hash: finding K2) is not modelled: pairs with such aliases among set members are "
-    "checked by the direct oracle only",
+    "the identity shortcut `level.t1 is level.t2` is modelled for nan objects and Enum members (for every other atom identical objects are equal "
+    "objects of one representation, for which every comparer reports nothing); containers are trees in the model (a container object shared at "
+    "two positions is fed to the model unfolded)",
+    "the DeepHash memo table keyed by == (1 / 1.0 / Decimal('1') and, under use_enum_value, a member and its value share one hash: finding K2) is "
+    "not modelled: pairs with such aliases among set members are checked by the direct oracle only",
+    "a str / bytes valued Enum member meeting a CONTAINER under use_enum_value is iterated by the code as a sequence of characters: the model "
+    "answers Err EType there and the correspondence does not generate that combination (counted as xcorr_skipped)",
+    "naive datetime.time with microsecond a multiple of 15625 (time_to_seconds exact); Decimal finite, exponent in [-12, 6], <= 15 digits",
 ]
 ASSUMPTIONS = [
     "inputs are tree shaped (no shared or cyclic containers)",
@@ -103,8 +113,9 @@ TYPES = {"int": int, "float": float, "str": str, "bytes": bytes, "bool": bool, "
          "Decimal": Decimal, "date": datetime.date, "time": datetime.time, "timedelta": datetime.timedelta}
 COQ_TY = {"int": "TInt", "float": "TFloat", "str": "TStr", "bytes": "TBytes", "bool": "TBool", "NoneType": "TNone",
           "list": "TList", "tuple": "TTuple", "dict": "TDict", "set": "TSet", "frozenset": "TFrozen"}
-MODELLED = ("case", "strty", "numty", "sig", "eps", "excl", "private")
-UNMODELLED = ("trunc", "tz", "nan", "enum")
+MODELLED = ("case", "strty", "numty", "sig", "eps", "excl", "private")                      # old model
+XMODELLED = MODELLED + ("trunc", "tz", "nan", "enum", "note")                                  # extended model
+UNMODELLED = ()
 
 
 def mk(**kw):
@@ -2314,8 +2325,10 @@ def run(ctx):
     with mp.get_context("fork").Pool(core.NCPU) as pool:
         ores = pool.map(oracle_case, [(pack(j[0]), pack(j[1])) + tuple(j[2:]) for j in ojobs], chunksize=16)
     report_oracle(ctx, ores, ojobs)
-    ctx.note("options_in_model", list(MODELLED))
-    ctx.note("options_oracle_only", list(UNMODELLED) + ["(no theorem covers these four; they are exercised by the direct oracle on the implementation)"])
+    ctx.note("options_in_old_model", list(MODELLED))
+    ctx.note("options_in_extended_model", list(XMODELLED))
+    ctx.note("outside_every_model", ["numpy scalars", "named time zones", "the DeepHash memo table (K2)", "non-ASCII bytes / case folding",
+                                     "a str-valued Enum member meeting a container under use_enum_value"])
 
 
 def replay(ctx, data):
